@@ -155,6 +155,12 @@ pub fn run(opts: &Opts, pools: &Pools, rep: &mut Report) {
         if idx % 1024 == 1023 {
             veteran = m_match::initial_matcher(opts.seed, opts.shard, idx / 1024 + 1);
         }
+        if idx % 97 == 96 {
+            // a clone of a used matcher takes over (it must not share or mis-copy scratch state)
+            let copy = veteran.clone();
+            veteran = copy;
+            rep.count("c10.veteran-replaced-by-its-clone");
+        }
         // alternate large and small inputs so that stale slab content differs maximally
         let case = match idx % 16 {
             0 => m_match::gen_big(&mut rng, pools, false),
